@@ -20,6 +20,10 @@ struct RCase {
     extra: usize,
     /// call with no argument at all
     empty: bool,
+    /// how the digits argument is written: 0 literal, 1 `floor(n.5)`, 2 `ceil(n - 0.5)`, 3 `round(n)`, 4 `(n + 0)`
+    digits_form: u8,
+    /// wrap the whole call: 0 no, 1 `floor(call)`, 2 `round(call, 1)`, 3 `ceil(call) - floor(call)`
+    outer: u8,
 }
 
 fn expr_of(c: &RCase) -> Expr {
@@ -32,12 +36,27 @@ fn expr_of(c: &RCase) -> Expr {
     };
     let mut args = vec![x];
     if let Some(d) = c.digits {
-        args.push(Expr::num(d as i64));
+        // the digits argument may itself be a call or an expression (arguments are evaluated one after
+        // the other; a nested call must not disturb the arguments already evaluated)
+        let lit = |t: String| Expr::Num(Lit::from_text(&t));
+        args.push(match c.digits_form {
+            1 => Expr::Call("floor", vec![lit(format!("{}.5", d))]),
+            2 => Expr::Call("ceil", vec![Expr::bin(Op::Sub, Expr::num(d as i64), lit("0.5".into()))]),
+            3 => Expr::Call("round", vec![Expr::num(d as i64)]),
+            4 => Expr::Paren(Box::new(Expr::bin(Op::Add, Expr::num(d as i64), Expr::num(0)))),
+            _ => Expr::num(d as i64),
+        });
     }
     for i in 0..c.extra {
-        args.push(Expr::num(i as i64));
+        args.push(if c.digits_form % 2 == 1 { Expr::Call("ceil", vec![Expr::num(i as i64)]) } else { Expr::num(i as i64) });
     }
-    Expr::Call(c.func, args)
+    let call = Expr::Call(c.func, args);
+    match c.outer {
+        1 => Expr::Call("floor", vec![call]),
+        2 => Expr::Call("round", vec![call, Expr::num(1)]),
+        3 => Expr::bin(Op::Sub, Expr::Call("ceil", vec![call.clone()]), Expr::Call("floor", vec![call])),
+        _ => call,
+    }
 }
 
 fn arg_value(c: &RCase) -> Option<BigRational> {
@@ -84,13 +103,26 @@ fn make_case(c: &RCase) -> Option<QCase> {
     if c.unit.is_some() {
         classes.push("with-unit");
     }
+    if c.digits.is_some() && c.digits_form != 0 {
+        classes.push("digits-argument-is-an-expression");
+        nt = true;
+    }
+    if c.outer != 0 {
+        classes.push("nested-in-another-call");
+    }
+    if let Expr::Num(l) = &c.arg {
+        if l.text.trim_start_matches('-').len() >= 16 {
+            classes.push("machine-word-boundary");
+            nt = true;
+        }
+    }
     if c.extra > 0 || c.empty || (c.digits.is_some() && c.func != "round") {
         classes.push("wrong-arity");
         nt = true;
     }
     // a rounded quantity must come back in the argument's own unit
     let r = crate::ast::eval_ref(&e, &ObsEnv);
-    let unit_mirror = c.unit.as_ref().map(|u| u.mirror());
+    let unit_mirror = if c.outer == 3 { None } else { c.unit.as_ref().map(|u| u.mirror()) };
     let expect = expect_of(&r, unit_mirror.as_ref())?;
     Some(QCase { query: crate::ast::render_canonical(&e), expect, nontrivial: nt, classes: classes.into_iter().map(|s| s.to_string()).collect() })
 }
@@ -110,8 +142,18 @@ fn arg() -> impl Strategy<Value = Expr> {
         Expr::Num(Lit::from_text(&text))
     });
     let frac = (-2000i64..=2000, 1i64..=64).prop_map(|(p, q)| Expr::Paren(Box::new(Expr::bin(Op::Div, Expr::num(p), Expr::num(q)))));
+    // values next to the boundaries of machine words: (2^k + j) with the decimal point moved p places
+    let word = (prop_oneof![Just(15u32), Just(16), Just(31), Just(32), Just(53), Just(63), Just(64), Just(127), Just(128)], -3i64..=3, 0usize..=3, any::<bool>()).prop_map(|(k, j, p, neg)| {
+        let n = (num::BigInt::from(1) << k as usize) + num::BigInt::from(j);
+        let mut t = n.to_string();
+        if p > 0 && t.len() > p {
+            t.insert(t.len() - p, '.');
+        }
+        Expr::Num(Lit::from_text(&format!("{}{}", if neg { "-" } else { "" }, t)))
+    });
     prop_oneof![
         4 => boundary,
+        2 => word,
         2 => (-1000i64..=1000).prop_map(Expr::num),
         2 => (-1000i64..=1000).prop_map(|k| Expr::Num(Lit::from_text(&format!("{}.5", k)))),
         3 => gen::lit(LitCfg { max_int_digits: 8, max_frac_digits: 8, max_exp: 4, allow_percent: false, allow_neg: true, allow_plus: false, allow_exotic: true }).prop_map(Expr::Num),
@@ -127,18 +169,20 @@ fn rcase() -> impl Strategy<Value = RCase> {
         prop::option::weighted(0.5, -6i32..=6),
         prop_oneof![12 => Just(0usize), 1 => Just(1usize), 1 => Just(2usize)],
         prop::bool::weighted(0.03),
+        prop_oneof![3 => Just(0u8), 1 => 1u8..=4],
+        prop_oneof![5 => Just(0u8), 1 => 1u8..=3],
     )
-        .prop_map(|(func, arg, unit, digits, extra, empty)| {
+        .prop_map(|(func, arg, unit, digits, extra, empty, digits_form, outer)| {
             // digits only make sense for round; for floor/ceil keep them rarely (arity error)
             let digits = if func == "round" { digits } else { digits.filter(|d| d % 5 == 0) };
             // a unit can only be attached to a literal argument
             let unit = if matches!(arg, Expr::Num(_)) { unit } else { None };
-            RCase { func, arg, unit, digits, extra, empty }
+            RCase { func, arg, unit, digits, extra, empty, digits_form, outer }
         })
 }
 
 pub fn run_check(ctx: &Ctx) {
-    ctx.set_rule("floor/ceil/round/round(x, n) over integers, exact halves, values one unit in the last place around integer and half boundaries, random decimals and fractions (p / q), with and without a unit, digits -6..6, arities 0..4; oracle = mathematical definitions (div_floor; round = sign*floor(|x|+1/2)) on exact rationals; the result must be in the argument's unit; wrong arity must be an error; non-trivial = negative non-integer, exact half, digits != 0 or arity error; distinct by query text");
+    ctx.set_rule("floor/ceil/round/round(x, n) over integers, exact halves, values one unit in the last place around integer and half boundaries, random decimals and fractions (p / q), values next to machine-word boundaries ((2^k + j) / 10^p for k in 15..128), with and without a unit, digits -6..6 written as a literal or as a nested call / expression, calls nested in other calls, arities 0..4; oracle = mathematical definitions (div_floor; round = sign*floor(|x|+1/2)) on exact rationals; the result must be in the argument's unit; wrong arity must be an error; non-trivial = negative non-integer, exact half, digits != 0 or arity error; distinct by query text");
     let corpus: Vec<(String, QCase)> = load_corpus("C10");
     let cases: Vec<QCase> = corpus.into_iter().map(|c| c.1).collect();
     ctx.run_list("corpus", &cases, |c| judge(shared_db(), c), |c| to_json(c));
